@@ -560,6 +560,13 @@ def check_requires(prog, site_func, site, req):
                 x, y = (tb, ta) if sw else (ta, tb)
                 if has(x, lhs) and has(y, rhs):
                     ok, how, r = cmp_reject_relation(g, s, targets=oks)
+                    if not ok:
+                        from .rules.c03 import for_loops
+                        for L in for_loops(g):
+                            if s["bb"] in L["body"]:
+                                ok, how, r = cmp_reject_relation(g, s, targets=oks, per_iteration=L)
+                                if ok:
+                                    break
                     if ok and (_SWAP[r] if sw else r) == rel:
                         return True, "guard `%s %s %s => Err` in %s" % (lhs, rel, rhs, g.key.split("::")[-1])
         return False, "guard `%s %s %s => Err` not found in %s" % (lhs, rel, rhs, g.key)
